@@ -29,6 +29,15 @@ def const_term(st, data):
         for i, b in enumerate(data[:256]):
             facts.append(smt.sat_(c, i) == b)
         st.defs[name] = facts
+        # different constants are different values (lets the quantifier-free path solver see that
+        # x == "a" and x == "b" exclude each other)
+        syms = st.__dict__.setdefault("const_syms", {})
+        for other, (oc, odata) in syms.items():
+            if tuple(odata) != tuple(data):
+                st.assume(c != oc)
+        if len(data) > 0:
+            st.assume(c != smt.sempty)
+        syms[name] = (c, tuple(data))
     return c
 
 
@@ -250,4 +259,7 @@ def seq_eq(st, a, b):
     if ca is not None and len(ca) == 1 and _same_len(st, lb, 1):
         x = index_norm(st, b, 0)
         return simp(zint(x) == (ca[0] if isinstance(ca, bytes) else ord(ca)))
-    return smt.seqeq(seq_term(st, a), seq_term(st, b))
+    ta, tb = seq_term(st, a), seq_term(st, b)
+    t = smt.seqeq(ta, tb)
+    st.assume(t == (ta == tb))        # ground instance of the definition of seqeq
+    return t
